@@ -560,6 +560,14 @@ CORPUS["C16"] += [B("leaf equality compares only co_code and co_consts", "R16.11
 CORPUS["C20"] += [B("positions handed to cdist as given", "R20.11", (SOLN, "        positions = np.atleast_2d(np.asarray(positions, dtype=float))\n", "        positions = np.atleast_2d(positions)\n")),
                   E("positions converted with astype(float)", (SOLN, "        positions = np.atleast_2d(np.asarray(positions, dtype=float))\n", "        positions = np.atleast_2d(positions).astype(float)\n"))]
 
+
+PROBE_W = "            if self.probe_points is not None:\n                f[\"probe_points\"] = self.probe_points\n"
+CORPUS["C14"] += [B("probe points written only for devices with terminals", "R14.13", (DEVICE, PROBE_W, "            if self.terminals and self.probe_points is not None:\n                f[\"probe_points\"] = self.probe_points\n")),
+                  E("probe points guard spelled with a local", (DEVICE, PROBE_W, "            probes = self.probe_points\n            if probes is not None:\n                f[\"probe_points\"] = self.probe_points\n"))]
+WARM = "            if step > window:\n"
+CORPUS["C12"] += [B("adaptive rule gated by the record cursor", "R12.1", (SOLVER, WARM, "            if running_state.step > window:\n"))]
+CORPUS["C17"] += [B("adaptive rule gated by the record cursor", "R17.6", (SOLVER, WARM, "            if running_state.step > window:\n"))]
+
 # ---------------------------------------------------------------------------
 # generic behaviour-preserving transformations of the anchor functions
 # ---------------------------------------------------------------------------
